@@ -20,6 +20,24 @@
 (*       t an inequality type:  PT(t, k, 0 - g(x))                         *)
 (*       t an equality type:    PT(t, k, IF g(x) = 0 THEN 1 ELSE 0)        *)
 (*   where PT is the documented formula of the penalty type.               *)
+(* Omitted coupler function (the documented defaults: identity / 0.0):     *)
+(*   inner()(f)(x,e) = outer()(f)(x,e) = f(x,e),  additive()(f)(x,e) =     *)
+(*   f(x,e) + 0;  the proxies hand their own args to f: *_proxy(args=(d,)) *)
+(*   (f)(x) = f(x,d).  A call argument may be written positionally or as   *)
+(*   the keyword a=e, a decorator argument as args=(d,) or kwds={'a': d}:  *)
+(*   the specification does not distinguish the spellings.                 *)
+(* Fam = "addv": additive on cost / penalty tables over the value          *)
+(*   catalogue AVals (negative, zero, positive) in a unit 2^u, u in Units  *)
+(*   (tiny, denormal, huge): the concrete value of table entry v is        *)
+(*   v * 2^u; sums are stated in units (exact in binary floating point).   *)
+(* Penalty combinators beyond iteration 0 and beyond k in KS:              *)
+(*   KHN = triples <<k,h,n>>: after n calls of iter() the multiplier is    *)
+(*   pk = k*h^n;  k=None leaves the multiplier to the penalty type:        *)
+(*   DefK(t) = 100 (linear, quadratic types) resp. infinite (uniform).     *)
+(*   Deg(t) is the degree of homogeneity of PT(t,k,.), so that member      *)
+(*   penalties / conditions given in a unit 2^u yield PT * 2^(u*Deg(t)).   *)
+(*   NPen may contain 0: and_() of no penalty is PT(t,k,0) = 0 everywhere; *)
+(*   or_() of no penalty is not defined (min of nothing).                  *)
 (* One state = one case (a choice of tables); there are no transitions.    *)
 (* TLC checks the laws below on every case and emits the case with the     *)
 (* expected tables; harness/check_C17.py replays them on the real code.    *)
@@ -27,11 +45,17 @@
 EXTENDS Integers, Sequences, FiniteSets, TLC, Json
 
 CONSTANTS M,        \* number of points
-          Fam,      \* family of cases: "couple" | "nest" | "pen" | "notpen"
+          Fam,      \* family of cases: "couple" | "nest" | "pen" | "notpen" | "addv"
           PMax,     \* member penalties take values 0..PMax (penalties are non-negative)
           NPen,     \* numbers of member penalties
           GVals,    \* values of the condition g under not_
           KS        \* penalty multipliers k
+
+(* catalogues with defaults (a cfg may override them with `<-`) *)
+AVals == {-2, -1, 0, 1, 3}                 \* "addv": table values in units
+Units == {0, -30, -1074, 33, 1000}         \* "addv": binary exponents u of the unit 2^u
+KHN   == {<<1, 2, 1>>, <<2, 5, 2>>, <<3, 1, 2>>, <<1, 0, 1>>, <<2, 3, 0>>, <<12, 2, 3>>}   \* <<k, h, n>>
+INFK  == 1000000                           \* sentinel: an infinite multiplier / penalty
 
 X == 0..(M - 1)
 Tables == [X -> X]
@@ -52,6 +76,14 @@ PT(t, k, v) ==
     [] t = "quadratic_inequality" -> 2 * k * Pos(v) * Pos(v)
     [] t = "uniform_inequality"   -> IF v > 0 THEN k ELSE 0
 
+IsUniform(t) == t \in {"uniform_equality", "uniform_inequality"}
+DefK(t) == IF IsUniform(t) THEN INFK ELSE 100                  \* the types' own default k (k=None)
+Deg(t) == CASE t \in {"linear_equality", "linear_inequality"} -> 1
+            [] t \in {"quadratic_equality", "quadratic_inequality"} -> 2
+            [] OTHER -> 0
+RECURSIVE IPow(_, _)
+IPow(b, e) == IF e = 0 THEN 1 ELSE b * IPow(b, e - 1)           \* pow(0, 0) = 1 as in python
+
 RECURSIVE SumTo(_, _, _)
 SumTo(ps, x, m) == IF m = 0 THEN 0 ELSE ps[m][x] + SumTo(ps, x, m - 1)
 RECURSIVE MinTo(_, _, _)
@@ -67,6 +99,7 @@ Cases ==
     [] Fam = "nest"   -> [c1 : Tables, c2 : Tables, ff : Tables]
     [] Fam = "pen"    -> {[ps |-> q] : q \in UNION {SeqsOf([X -> 0..PMax], m) : m \in NPen}}
     [] Fam = "notpen" -> [g : [X -> GVals], t : {PTypes[j] : j \in 1..6} \cup {"raw"}, mk : KS]
+    [] Fam = "addv"   -> [pf : [X -> AVals], ff : [X -> AVals], u : Units]
 Init == c \in Cases
 Next == UNCHANGED c
 Spec == Init /\ [][Next]_c
@@ -93,6 +126,20 @@ AddCommutes == Fam = "couple" => Additive(c.cf, c.ff, 0, 0) = Additive(c.ff, c.c
 (* vacuity companion, TLC must violate it: the order of composition matters *)
 OrderIrrelevant == Fam = "couple" => Inner(c.cf, c.ff, 0, 0) = Outer(c.cf, c.ff, 0, 0)
 
+(* the coupler function omitted: identity resp. zero; F is then simply read with the argument it gets *)
+Dflt(F, e) == [x \in X |-> Arg(F, x, e)]
+DefaultsNeutral == Fam = "couple" => \A e \in A2 : /\ Dflt(c.ff, e) = Inner(Id, c.ff, 0, e) /\ Dflt(c.ff, e) = Outer(Id, c.ff, 0, e)
+                                                  /\ Dflt(c.ff, e) = Additive(Zero, c.ff, 0, e)
+                                                  /\ Dflt(c.ff, e) = InnerP(Id, c.ff, e, 0) /\ Dflt(c.ff, e) = OuterP(Id, c.ff, e, 0)
+                                                  /\ Dflt(c.ff, e) = AdditiveP(Zero, c.ff, e, 0)
+
+(* additive over the value catalogue (Fam = "addv"), in units of 2^c.u *)
+AddV(d, e)  == [x \in X |-> Arg(c.ff, x, e) + Arg(c.pf, x, d)]
+AddVP(d, e) == [x \in X |-> Arg(c.ff, x, d) + Arg(c.pf, x, e)]
+AddvZero   == (Fam = "addv" /\ c.pf = Zero) => AddV(0, 0) = c.ff /\ AddVP(0, 0) = c.ff
+AddvCancel == (Fam = "addv" /\ \A x \in X : c.pf[x] = 0 - c.ff[x]) => AddV(0, 0) = Zero
+AddvSym    == Fam = "addv" => \A x \in X : AddV(0, 0)[x] - c.pf[x] = c.ff[x]
+
 (* nesting (Fam = "nest"): decorators compose inside-out *)
 II == [x \in X |-> c.ff[c.c2[c.c1[x]]]]      \* inner(c1)(inner(c2)(f))
 OO == [x \in X |-> c.c1[c.c2[c.ff[x]]]]      \* outer(c1)(outer(c2)(f))
@@ -110,16 +157,25 @@ NestAssoc == Fam = "nest" =>
 (* the penalty combinators (Fam = "pen") *)
 NP == Len(c.ps)
 AndPen(t, k) == [x \in X |-> PT(t, k, SumTo(c.ps, x, NP))]
-OrPen(t, k)  == [x \in X |-> PT(t, k, MinTo(c.ps, x, NP))]
+OrPen(t, k)  == [x \in X |-> PT(t, k, MinTo(c.ps, x, NP))]           \* NP > 0 only
 AndZeroIffAll == Fam = "pen" => \A j \in 1..6, k \in KS, x \in X :
                    (AndPen(PTypes[j], k)[x] = 0) <=> (\A i \in 1..NP : c.ps[i][x] = 0)
-OrZeroIffAny  == Fam = "pen" => \A j \in 1..6, k \in KS, x \in X :
+OrZeroIffAny  == (Fam = "pen" /\ NP > 0) => \A j \in 1..6, k \in KS, x \in X :
                    (OrPen(PTypes[j], k)[x] = 0) <=> (\E i \in 1..NP : c.ps[i][x] = 0)
 AndIsSum      == Fam = "pen" => \A x \in X : AndPen("linear_equality", 1)[x] = SumTo(c.ps, x, NP)
-OrIsMin       == Fam = "pen" => \A x \in X : \E i \in 1..NP :
+OrIsMin       == (Fam = "pen" /\ NP > 0) => \A x \in X : \E i \in 1..NP :
                    /\ OrPen("linear_equality", 1)[x] = c.ps[i][x]
                    /\ \A i2 \in 1..NP : c.ps[i][x] <= c.ps[i2][x]
-OrLeAnd       == Fam = "pen" => \A x \in X : OrPen("linear_equality", 1)[x] <= AndPen("linear_equality", 1)[x]
+OrLeAnd       == (Fam = "pen" /\ NP > 0) => \A x \in X : OrPen("linear_equality", 1)[x] <= AndPen("linear_equality", 1)[x]
+(* PT(t,k,.) is homogeneous of degree Deg(t) on the non-negative values the combinators feed it, and linear in k:
+   that is what lets the harness replay a case with member penalties given in a unit 2^u and at iteration n *)
+Homogeneous   == Fam \in {"pen", "notpen"} => \A j \in 1..6, k \in KS, v \in 0..3, u \in 1..3 :
+                   PT(PTypes[j], k, u * v) = IPow(u, Deg(PTypes[j])) * PT(PTypes[j], k, v)
+LinearInK     == Fam \in {"pen", "notpen"} => \A j \in 1..6, k \in KS, v \in 0..3, q \in 0..3 :
+                   PT(PTypes[j], q * k, v) = q * PT(PTypes[j], k, v)
+(* the zero set does not move with the iteration as long as the multiplier stays positive *)
+AndZeroAtIter == Fam = "pen" => \A j \in 1..6, q \in KHN, x \in X : (q[1] * IPow(q[2], q[3]) > 0) =>
+                   ((AndPen(PTypes[j], q[1] * IPow(q[2], q[3]))[x] = 0) <=> (\A i \in 1..NP : c.ps[i][x] = 0))
 
 (* not_ (Fam = "notpen"): the member is a penalty of type c.t with multiplier c.mk over the
    condition table c.g ("raw": a bare condition function, treated by not_ as linear_equality) *)
@@ -131,6 +187,7 @@ NotPen(k) == [x \in X |-> PT(MType, k, NotCond(x))]
    inequality holds strictly (an equality region has no boundary to remove) *)
 Accepts(x)  == IF IsIneq(MType) THEN c.g[x] <= 0 ELSE c.g[x] = 0
 Interior(x) == IF IsIneq(MType) THEN c.g[x] < 0 ELSE c.g[x] = 0
+NotDeg == IF IsIneq(MType) THEN Deg(MType) ELSE 0      \* `not g(x)` is a truth value: it does not scale with the unit of g
 NotPenalisesInterior == Fam = "notpen" => \A k \in KS, x \in X : (NotPen(k)[x] > 0) <=> Interior(x)
 NotNeverBoth == Fam = "notpen" => \A k \in KS, x \in X : ~(NotPen(k)[x] > 0 /\ MemberPen[x] > 0)
 MemberZeroIffAccepts == Fam = "notpen" => \A x \in X : (MemberPen[x] = 0) <=> Accepts(x)
@@ -146,17 +203,30 @@ Emit ==
          IN PrintT(<<"@@", ToJson([fam |-> Fam, cf |-> Seq1(c.cf), ff |-> Seq1(c.ff),
                      inner |-> ByArgs(OpI), inner_proxy |-> ByArgs(OpIP),
                      outer |-> ByArgs(OpO), outer_proxy |-> ByArgs(OpOP),
-                     additive |-> ByArgs(OpA), additive_proxy |-> ByArgs(OpAP)])>>)
+                     additive |-> ByArgs(OpA), additive_proxy |-> ByArgs(OpAP),
+                     dflt |-> [e \in 1..2 |-> Seq1(Dflt(c.ff, e - 1))]])>>)
     [] Fam = "nest" ->
          PrintT(<<"@@", ToJson([fam |-> Fam, c1 |-> Seq1(c.c1), c2 |-> Seq1(c.c2), ff |-> Seq1(c.ff),
                      ii |-> Seq1(II), oo |-> Seq1(OO), io |-> Seq1(IO), oi |-> Seq1(OI), aa |-> Seq1(AA)])>>)
+    [] Fam = "addv" ->
+         PrintT(<<"@@", ToJson([fam |-> Fam, pf |-> Seq1(c.pf), ff |-> Seq1(c.ff), u |-> c.u,
+                     additive |-> ByArgs(AddV), additive_proxy |-> ByArgs(AddVP),
+                     dflt |-> [e \in 1..2 |-> Seq1(Dflt(c.ff, e - 1))]])>>)
     [] Fam = "pen" ->
-         PrintT(<<"@@", ToJson([fam |-> Fam, ps |-> [i \in 1..NP |-> Seq1(c.ps[i])],
+         PrintT(<<"@@", ToJson([fam |-> Fam, ps |-> [i \in 1..NP |-> Seq1(c.ps[i])], inf |-> INFK,
+                     deg |-> [j \in 1..6 |-> Deg(PTypes[j])],
                      and |-> [j \in 1..6 |-> [k \in KS |-> Seq1(AndPen(PTypes[j], k))]],
-                     or  |-> [j \in 1..6 |-> [k \in KS |-> Seq1(OrPen(PTypes[j], k))]]])>>)
+                     or  |-> IF NP > 0 THEN [j \in 1..6 |-> [k \in KS |-> Seq1(OrPen(PTypes[j], k))]] ELSE << >>,
+                     anddk |-> [j \in 1..6 |-> Seq1(AndPen(PTypes[j], DefK(PTypes[j])))],          \* k=None
+                     ordk  |-> IF NP > 0 THEN [j \in 1..6 |-> Seq1(OrPen(PTypes[j], DefK(PTypes[j])))] ELSE << >>,
+                     iter |-> {[k |-> q[1], h |-> q[2], n |-> q[3],
+                                and |-> [j \in 1..6 |-> Seq1(AndPen(PTypes[j], q[1] * IPow(q[2], q[3])))],
+                                or  |-> IF NP > 0 THEN [j \in 1..6 |-> Seq1(OrPen(PTypes[j], q[1] * IPow(q[2], q[3])))] ELSE << >>]
+                               : q \in KHN}])>>)
     [] Fam = "notpen" ->
-         PrintT(<<"@@", ToJson([fam |-> Fam, g |-> Seq1(c.g), t |-> c.t, mk |-> c.mk,
-                     member |-> Seq1(MemberPen),
+         PrintT(<<"@@", ToJson([fam |-> Fam, g |-> Seq1(c.g), t |-> c.t, mk |-> c.mk, inf |-> INFK,
+                     member |-> Seq1(MemberPen), deg |-> Deg(MType), ntdeg |-> NotDeg,
                      nt |-> [k \in KS |-> Seq1(NotPen(k))],
+                     ntdk |-> Seq1(NotPen(DefK(MType))),                                       \* k=None
                      interior |-> {x \in X : Interior(x)}])>>)
 =============================================================================
